@@ -1,0 +1,25 @@
+//go:build verif
+// +build verif
+
+// Verification hook (build tag verif only): access to round1's private share collector
+// (groupSignGenerator in round_sign_piece.go), the object that recovers the block signature
+// and the random beacon from the members' shares.  Thin wrappers, no behaviour.
+
+package logical
+
+import "com.tuntun.rangers/node/src/consensus/groupsig"
+
+// VerifSignGenerator wraps a production groupSignGenerator.
+type VerifSignGenerator struct{ g *groupSignGenerator }
+
+// VerifNewSignGenerator is newGroupSignGenerator(threshold).
+func VerifNewSignGenerator(threshold int) *VerifSignGenerator {
+	return &VerifSignGenerator{g: newGroupSignGenerator(threshold)}
+}
+
+func (v *VerifSignGenerator) AddWitnessSign(id groupsig.ID, s groupsig.Signature) (add bool, generated bool) {
+	return v.g.AddWitnessSign(id, s)
+}
+func (v *VerifSignGenerator) SignRecovered() bool              { return v.g.SignRecovered() }
+func (v *VerifSignGenerator) GetGroupSign() groupsig.Signature { return v.g.GetGroupSign() }
+func (v *VerifSignGenerator) WitnessCount() int                { return len(v.g.witnessSignMap) }
